@@ -22,4 +22,5 @@ import Props.C12
 #print axioms SpyneModel.Props.C12.attr_publication_order_matters
 #print axioms SpyneModel.Props.C12.error_log_read_must_be_atomic
 #print axioms SpyneModel.Props.C12.parked_request_data_crosses_threads
+#print axioms SpyneModel.Props.C12.rebinding_a_shared_protocol_fails_the_loser
 #print axioms SpyneModel.Props.C12.shared_context_cell_crosses_threads
